@@ -27,7 +27,7 @@ THEOREMS = [
 KERNELS = ["k_jackknife", "k_weights", "k_normalise", "k_estimators", "k_nz"]
 RULE = ("all 8 subsets of {dr,rd,rr} x auto/cross x random counts (CorrFunc construction + sample, incl. the "
         "subsets that must raise); RedshiftData.from_corrfuncs with all 4 combinations of optional "
-        "autocorrelations; HistData/RedshiftData.normalised incl. NaN entries. ULP(16) on the magnitude of the "
+        "autocorrelations; HistData/RedshiftData.normalised incl. NaN entries and negative amplitudes. ULP(16) on the magnitude of the "
         "terms entering each quotient. non-trivial: N >= 2 patches and >= 2 distinct non-zero dd counts")
 
 
@@ -128,7 +128,7 @@ def run(prop, tier, seed, replay):
         M = rng.choice([1, 2, 4, 6])
         binning = G.rand_binning(rng, B)
 
-        def rnd_cd(pos):
+        def rnd_cd(pos, neg_col=None):
             vals = []
             for _ in range((M + 1) * B):
                 v = rng.choice([0.5, 1.0, 2.0, 0.25, rng.uniform(0.01, 3.0)])
@@ -138,11 +138,16 @@ def run(prop, tier, seed, replay):
                     v = 0.0 if pos else v
                 vals.append(v)
             a = np.array(vals).reshape(M + 1, B)
+            if neg_col is not None:
+                a[:, neg_col] = -np.abs(a[:, neg_col]) - 0.125
             return CorrData(binning, a[0], a[1:])
         has_ref, has_unk = bool(i & 1), bool(i & 2)
         cross = rnd_cd(False)
-        ref = rnd_cd(rng.random() < 0.9) if has_ref else None
-        unk = rnd_cd(rng.random() < 0.9) if has_unk else None
+        # stratum: a bin in which BOTH autocorrelation amplitudes are negative (value and every sample): their
+        # product under the square root is positive, the estimate is finite
+        both_neg = rng.randrange(B) if (has_ref and has_unk and (i // 4) % 2 == 0) else None
+        ref = rnd_cd(rng.random() < 0.9, both_neg) if has_ref else None
+        unk = rnd_cd(rng.random() < 0.9, both_neg) if has_unk else None
         toks = [f"nz{i}", "nz", str(B), str(M), str(int(has_ref)), str(int(has_unk))]
         toks += [fr(x) for x in binning.dz]
         for c in (cross, ref, unk):
@@ -202,6 +207,12 @@ def run(prop, tier, seed, replay):
             if np.nansum(a[0]) == 0:           # the raw integral must be non-zero for the property to apply
                 a[0, int(np.argmax(np.isfinite(a[0])))] = 2.0
         cls = HistData if i % 2 == 0 else RedshiftData
+        if cls is RedshiftData and i % 4 == 1 and B >= 2:
+            # noisy estimates have negative bins: they take part in the integral like any other bin
+            k = rng.randrange(B)
+            a[:, k] = -np.abs(a[:, k]) - 1.0
+            if np.nansum(a[0] * binning.dz) == 0:
+                a[0, (k + 1) % B] += 7.0
         obj = cls(binning, a[0].copy(), a[1:].copy())
         hn_cases.append((obj, with_nan))
         if cls is HistData and not with_nan:
@@ -220,7 +231,10 @@ def run(prop, tier, seed, replay):
                 f"norm{i}:{obj.data.tolist()}")
         fin = np.isfinite(out.data)
         integral = sum(to_frac(z) * to_frac(y) for z, y, f in zip(dz, out.data, fin) if f)
-        if not fin.any() or abs(integral - 1) > Fraction(64 * len(dz), 2 ** 52):
+        terms = np.asarray(dz) * obj.data
+        cond = float(np.nansum(np.abs(terms)) / abs(np.nansum(terms))) if np.nansum(terms) != 0 else 1.0
+        cond = min(max(cond, 1.0), 1e6)         # cancellation between positive and negative bins amplifies rounding
+        if not fin.any() or abs(integral - 1) > Fraction(64 * len(dz), 2 ** 52) * Fraction(cond):
             ck.add_violation(f"integral of normalised {type(obj).__name__} is {float(integral)} != 1",
                              {"kind": "normalised", "cls": type(obj).__name__, "data": obj.data.tolist(),
                               "edges": obj.binning.edges.tolist()})
